@@ -1150,6 +1150,68 @@ def inline_mix_program(rng, idx=0):
     return prog
 
 
+NAME_MAPS = [{}, {"x": "y", "y": "x"}, {"x": "p", "y": "q"}, {"x": "q", "y": "p"}, {"x": "x", "y": "p"}, {"x": "y", "y": "q"}]
+
+
+def make_history(rng, prog, idx=0):
+    """Feedback class: 2-3 builds over the SAME Var objects, every build needing conversion, where between
+    builds the names given to `build` change: arguments permuted / renamed, outputs renamed / permuted /
+    other subsets, intermediate values renamed through `Var._rename`, the low-level Graph API.
+    prog["history"] = [spec...]; the last spec is the build observed against the model; every build is judged.
+    spec = {"names": {role: name}, "outs": [[name, id]...], "low": bool, "renames": {id: name}}"""
+    import copy
+
+    p = copy.deepcopy(prog)
+    p.pop("prebuild_outs", None)
+    top = [st["id"] for st in p["nodes"]]
+    taint = tainted_ids(p)
+    base_outs = list(p["outs"])
+    # values the later builds put on top: identities from newer modules (raise the maximum -> more conversion)
+    raised = {}
+    for k, o in enumerate(base_outs):
+        hi = rng.choice([19, 21, 21])
+        nid = f"h{idx}_{k}"
+        p["nodes"].append({"id": nid, "op": "identity", "mv": hi, "args": [o]})
+        raised[o] = nid
+    inner = [t for t in top if t not in taint and t not in base_outs]
+    n = rng.choice([2, 2, 3])
+    specs = []
+    prev_outs = None
+    for b in range(n):
+        mode = rng.random()
+        if prev_outs is not None and mode < 0.55:
+            ids = list(prev_outs)  # same operators, same maximum: only the names differ
+        else:
+            ids = [raised[o] if rng.random() < 0.6 else o for o in base_outs]
+            if inner and rng.random() < 0.3:
+                ids.append(rng.choice(inner))
+        if len(ids) > 1 and rng.random() < 0.4:
+            rng.shuffle(ids)
+        ids = list(dict.fromkeys(ids))
+        style = rng.randrange(3)
+        names = [f"out{i}" for i in range(len(ids))]
+        if style == 1:
+            names = list(reversed(names))
+        elif style == 2:
+            names = [f"r{b}_{i}" for i in range(len(ids))]
+        spec = {"names": dict(rng.choice(NAME_MAPS)), "outs": [[nm, i] for nm, i in zip(names, ids)]}
+        if rng.random() < 0.25:
+            spec["low"] = True
+        if inner and rng.random() < 0.35:
+            spec["renames"] = {i: f"zq{b}_{j}" for j, i in enumerate(rng.sample(inner, min(len(inner), rng.randrange(1, 3))))}
+        specs.append(spec)
+        prev_outs = ids
+    p["history"] = specs
+    p["outs"] = [i for _, i in specs[-1]["outs"]]
+    align_unknown_rank(p)
+    return p
+
+
+def spec_program(prog, spec):
+    """The abstract program one build of a history is about: its outputs, nothing else reachable."""
+    return sink(prune({"nodes": prog["nodes"], "outs": [i for _, i in spec["outs"]]}))
+
+
 PIN = {18: ("pad", 18), 19: ("identity", 19), 20: ("isnan_w", 20), 21: ("identity", 21)}
 
 
